@@ -107,7 +107,7 @@ class HistGen:
         k = self.pick_id()
         t = r.random()
         same = r.random() < 0.6
-        p = self.price if same else self.price + r.choice([1, 2, 50])
+        p = self.price if same else self.price + r.choice([1, 2, 13, 50])
         nq = self.qty(0 if self.allow_zero else 1, may_big=False)
         if t < 0.3 or k in self.big_hidden:
             u = "C:%s" % k
